@@ -66,11 +66,16 @@ def solveCubic (c0 c1 c2 c3 : K) : List K :=
       let t := (2 : K) * Scalar.sqrt (-d0)
       [smulAdd t r0 (-c2), smulAdd t r1 (-c2), smulAdd t r2 (-c2)]
 
-/-- the two reductions at the head of `common::solve_quartic`; the general case is delegated to `inner`
+/-- the biquadratic branch of `solve_quartic` (`a == 0 && c == 0` after division by `c4`): `x⁴ + b x² + d` -/
+def solveBiquadratic (b d : K) : List K :=
+  (solveQuadratic d b (1 : K)).flatMap fun y => if (0 : K) <. y then [-(Scalar.sqrt y), Scalar.sqrt y] else []
+
+/-- the three reductions at the head of `common::solve_quartic`; the general case is delegated to `inner`
     (the LDLᵀ factorisation `solve_quartic_inner` with rescaling, not transcribed) -/
 def solveQuarticWith (inner : K → K → K → K → K → List K) (c0 c1 c2 c3 c4 : K) : List K :=
   if c4 ==. (0 : K) then solveCubic c0 c1 c2 c3
   else if c0 ==. (0 : K) then solveCubic c1 c2 c3 c4 ++ [(0 : K)]
+  else if (c3 / c4 ==. (0 : K)) && (c1 / c4 ==. (0 : K)) then solveBiquadratic (c2 / c4) (c0 / c4)   -- biquadratic: quadratic in x²
   else inner c0 c1 c2 c3 c4
 
 /-- loop state of `solve_itp` -/
